@@ -243,8 +243,10 @@ TaintOf(st, sl, tn, res) ==
   ELSE LET src == Sources(st) IN
        [u |-> StepU(st, sl) \cup UNION {tn[i].u : i \in src},
         s |-> StepS(st) \cup ExtraS(st, sl, tn) \cup UNION {tn[i].s : i \in src},
-        \* (C12 does not list a user type's key marker among what reports must retain)
-        r |-> (IF KeyWrap(st) THEN {} ELSE StepS(st)) \cup UNION {tn[i].r : i \in src},
+        \* (C12 does not list a user type's key marker or own SafeDetails() strings among
+        \* what reports must retain: they are safe where they appear, nothing more)
+        r |-> (IF KeyWrap(st) \/ (st.op = "ULeaf" /\ st.a[1] = <<"uSafeDetLeaf">>) THEN {} ELSE StepS(st))
+              \cup UNION {tn[i].r : i \in src},
         h |-> StepH(st) \/ \E i \in src : tn[i].h,
         mk |-> StepMk(st) \/ \E i \in src : tn[i].mk,
         dv |-> \E i \in src : tn[i].dv]
